@@ -35,7 +35,7 @@ def corpus_build(garble, garble_flags=(), env_extra=None, name="mod1"):
         # keep the cache small: drop other entries
         for e in os.listdir(root):
             p = os.path.join(root, e)
-            if os.path.isdir(p) and e != key and len(os.listdir(root)) > 8:
+            if os.path.isdir(p) and e != key and len([x for x in os.listdir(root) if os.path.isdir(os.path.join(root, x))]) > 3:
                 shutil.rmtree(p, ignore_errors=True)
         shutil.rmtree(out, ignore_errors=True)
         os.makedirs(out)
@@ -43,7 +43,16 @@ def corpus_build(garble, garble_flags=(), env_extra=None, name="mod1"):
         shutil.copytree(src, proj_dir)
         proj = e2e.Project.__new__(e2e.Project)
         proj.dir, proj.module = proj_dir, "example.com/corp"
-        caches = e2e.Caches("corpus-" + key)
+        caches = e2e.Caches.__new__(e2e.Caches)
+        caches.gocache = os.path.join(out, "gocache")
+        caches.garble_cache = os.path.join(out, "garblecache")
+        caches.tmp = os.path.join(out, "tmp")
+        for d_ in (caches.garble_cache, caches.tmp):
+            os.makedirs(d_)
+        if os.path.isdir(vlib.STD_SNAPSHOT):
+            vlib.run(["cp", "-a", vlib.STD_SNAPSHOT, caches.gocache], check=True)
+        else:
+            os.makedirs(caches.gocache)
         res = {"dir": out, "src": proj_dir, "plain": os.path.join(out, "plain.bin"), "garbled": os.path.join(out, "garbled.bin"),
                "debugdir": os.path.join(out, "dbg"), "flags": list(garble_flags)}
         rp = e2e.plain_build(proj, res["plain"], caches=caches)
@@ -88,10 +97,16 @@ def corpus_build(garble, garble_flags=(), env_extra=None, name="mod1"):
                 for e in os.listdir(d):
                     if e != "example.com":
                         shutil.rmtree(os.path.join(d, e), ignore_errors=True)
-        res["caches"] = {"gocache": caches.gocache, "garble_cache": caches.garble_cache}
-        caches.remove()
+        res["caches"] = {"gocache": caches.gocache, "garble_cache": caches.garble_cache, "tmp": caches.tmp}
         with open(os.path.join(out, "done.json"), "w") as f:
             json.dump(res, f)
         return res
     finally:
         lock.close()
+
+
+def corpus_caches(cres):
+    """The (kept) caches of a corpus build, for further builds with the same garble binary and flags."""
+    c = e2e.Caches.__new__(e2e.Caches)
+    c.gocache, c.garble_cache, c.tmp = cres["caches"]["gocache"], cres["caches"]["garble_cache"], cres["caches"]["tmp"]
+    return c
